@@ -17,6 +17,8 @@ def render(fails, modname: str):
         msg = msg.replace(modname, "<mod>")
         msg = re.sub(r"verifmod\d+", "<mod>", msg)
         msg = re.sub(r" at 0x[0-9a-f]+", " at 0x?", msg)
+        msg = re.sub(r"<test input [0-9a-f]+>", "<mod>", msg)
+        msg = re.sub(r"[0-9a-f]{64}\.py", "<mod>.py", msg)
         out.append([code, f.get("lineno"), f.get("col_offset"), msg])
     return out
 
@@ -28,8 +30,33 @@ def main() -> None:
     os.environ.setdefault("PYANALYZE_VERIF", "1")
     from harness import pyz
 
-    checker = pyz.get_checker(job.get("settings") or None, fresh=True)
     results = []
+    if "corpus" in job:
+        # corpus mode: the repository's own test snippets, checked in the given order; programs with the same
+        # settings share ONE Checker (so each is checked with all earlier ones as history)
+        from harness import corpus
+        from pyanalyze.error_code import ErrorCode
+        from pyanalyze.test_name_check_visitor import ConfiguredNameCheckVisitor
+
+        by_id = {it["id"]: it for it in corpus.harvest()}
+        checkers: dict = {}
+        for cid in job["corpus"]:
+            it = by_id.get(cid)
+            if it is None:
+                results.append({"pid": "corpus:" + cid, "raised": "MissingFromCorpus"})
+                continue
+            key = tuple(sorted(it["settings"].items()))
+            try:
+                if key not in checkers:
+                    st = {getattr(ErrorCode, k): v for k, v in corpus.test_default_settings(it["settings"]).items()}
+                    checkers[key] = ConfiguredNameCheckVisitor.prepare_constructor_kwargs({"settings": st})["checker"]
+                fails, _, visitor = corpus.run(it["code"], it["settings"], checker=checkers[key], **it["_kwargs"])
+                results.append({"pid": "corpus:" + cid, "render": render(fails, visitor.filename)})
+            except Exception as exc:  # noqa: BLE001
+                results.append({"pid": "corpus:" + cid, "raised": f"{type(exc).__name__}: {exc}"})
+        print(json.dumps({"seed": os.environ.get("PYTHONHASHSEED"), "results": results}))
+        return
+    checker = pyz.get_checker(job.get("settings") or None, fresh=True)
     for item in job["sequence"]:
         try:
             module = pyz.make_module(item["src"])
